@@ -127,7 +127,8 @@ class C15(Prop):
                 if not (wf_ns(cns(ns)) and wf_key(k)):
                     continue
                 if op == "cacc":
-                    if r != "R ok|ok|val i:7|val i:7|val i:7|" + ab(ns, k):
+                    if r != "R ok|ok|val i:7|val i:7|val i:7|" + ab(ns, k) + "|val i:3" and ab(ns, k) not in (
+                            ab(ns, "d"), ab(ns, "d/e")):
                         out.append(viol("client-access", "Client(namespace=%r): register / write / read %r by attribute, "
                                         "get(absolute name), Blackboard.get -> %s" % (ns, k, r)))
                 elif op == "cshare":
